@@ -52,7 +52,7 @@ type State struct {
 	// errs: error values obtained from calls on this path (for the "no error is dropped" check)
 	errs []errRec
 	// reached: call sites executed on this path (Bool terms; inside a loop: during the current iteration)
-	reached map[*ast.CallExpr]string
+	reached map[ast.Node]string
 	// defers: calls deferred on this path (run, last first, when the function returns)
 	defers []*ast.CallExpr
 }
@@ -66,7 +66,7 @@ func (s *State) clone() *State {
 	n := &State{env: make(map[*types.Var]Val, len(s.env)), heap: make(map[string]string, len(s.heap)), alloc: s.alloc, epoch: s.epoch}
 	n.defers = append([]*ast.CallExpr(nil), s.defers...)
 	if len(s.reached) > 0 {
-		n.reached = make(map[*ast.CallExpr]string, len(s.reached))
+		n.reached = make(map[ast.Node]string, len(s.reached))
 		for k, v := range s.reached {
 			n.reached[k] = v
 		}
@@ -165,6 +165,7 @@ type Unit struct {
 	frameCount int
 	frameSites map[string]int
 	atAsserts map[*ast.CallExpr][]*Clause
+	forbidSites map[*ast.CallExpr]*Clause
 	// declarations of the contract-less helpers currently executed in place (innermost last)
 	spliceDecls []*ast.FuncDecl
 	refMapValue map[string]bool
@@ -625,7 +626,7 @@ func (u *Unit) merge(a, b *State) *State {
 	}
 	out.defers = append([]*ast.CallExpr(nil), a.defers...)
 	if len(a.reached)+len(b.reached) > 0 {
-		out.reached = map[*ast.CallExpr]string{}
+		out.reached = map[ast.Node]string{}
 		for k, va := range a.reached {
 			vb, ok := b.reached[k]
 			if !ok {
@@ -862,9 +863,9 @@ func syntacticallyImplied(pc []string, goal string) bool {
 }
 
 // markReached records that a call site is executed on this path.
-func (st *State) markReached(call *ast.CallExpr) {
+func (st *State) markReached(call ast.Node) {
 	if st.reached == nil {
-		st.reached = map[*ast.CallExpr]string{}
+		st.reached = map[ast.Node]string{}
 	}
 	st.reached[call] = "true"
 }
@@ -873,16 +874,21 @@ func (st *State) markReached(call *ast.CallExpr) {
 // iteration (body state); after the loop nothing is known about them (exit state gets fresh values).
 func (u *Unit) resetReachedIn(body ast.Node, bodySt, exitSt *State) {
 	ast.Inspect(body, func(n ast.Node) bool {
-		if c, ok := n.(*ast.CallExpr); ok {
+		var c ast.Node
+		switch n.(type) {
+		case *ast.CallExpr, *ast.ForStmt, *ast.RangeStmt:
+			c = n
+		}
+		if c != nil {
 			if bodySt != nil {
 				if bodySt.reached == nil {
-					bodySt.reached = map[*ast.CallExpr]string{}
+					bodySt.reached = map[ast.Node]string{}
 				}
 				bodySt.reached[c] = "false"
 			}
 			if exitSt != nil {
 				if exitSt.reached == nil {
-					exitSt.reached = map[*ast.CallExpr]string{}
+					exitSt.reached = map[ast.Node]string{}
 				}
 				exitSt.reached[c] = u.reg.fresh("reached", "Bool")
 			}
